@@ -560,9 +560,15 @@ async fn scenario_silent_fin(scn: u64, c: &Value) -> Value {
   let _ = victim.set_option(SNDTIMEO, 100i32).await;
   let l = TcpListener::bind("127.0.0.1:0").await.expect("raw listener");
   let ep = format!("tcp://{}", l.local_addr().unwrap());
-  let _ = timeout(T_OP, victim.connect(&ep)).await;
+  // scenario 16: the application calls connect() `connects` times for the same endpoint (its own retry logic); every
+  // one of the connections is accepted and then closed by the peer
+  let connects = c["connects"].as_u64().unwrap_or(1).max(1);
+  for _ in 0..connects {
+    let _ = timeout(T_OP, victim.connect(&ep)).await;
+  }
   let mut accepted = false;
-  if let Ok(Ok((mut s, _))) = timeout(Duration::from_millis(2000), l.accept()).await {
+  for _ in 0..connects {
+    let Ok(Ok((mut s, _))) = timeout(Duration::from_millis(2000), l.accept()).await else { break };
     accepted = true;
     let greeting: [u8; 12] = [0xFF, 0, 0, 0, 0, 0, 0, 0, 1, 0x7F, 3, 0];
     if pre > 0 {
@@ -836,7 +842,7 @@ fn run_stack(c: &Value) -> Value {
         1..=7 | 11 | 13 | 14 => scenario_inbound(scn, n).await,
         8..=10 => scenario_outbound(scn, n).await,
         12 => scenario_resume(scn, n).await,
-        15 => scenario_silent_fin(scn, &c2).await,
+        15 | 16 => scenario_silent_fin(scn, &c2).await,
         20 => scenario_timing(scn, &c2).await,
         21 => scenario_accept_drop(scn, &c2).await,
         22 => scenario_retry_intervals(scn, &c2).await,
